@@ -48,10 +48,23 @@ def gen_cells(tier):
     for cls in CLASSES:
         for d in DEFECTS:
             for cont in CONTAINERS:
-                for mag in (1e-4, 0.3):
+                for mag in (3e-6, 1e-4, 0.3):          # 3e-6: just outside the 1e-6 band the statement allows
                     for src in ("ref", "lib"):
-                        yield {"kind": "ctor", "cls": cls, "defect": d, "container": cont, "m3": m3, "m2": m2, "mag": mag,
-                               "pattern": pat, "i": 1, "j": 2, "src": src}
+                        for i in (range(4) if d in ("lastrow", "reflect", "algebra") else (1,)):
+                            yield {"kind": "ctor", "cls": cls, "defect": d, "container": cont, "m3": m3, "m2": m2, "mag": mag,
+                                   "pattern": pat, "i": i, "j": 2, "src": src}
+
+
+def gen_pred_cells(tier):
+    m3 = {"rot": {"axis": [0.3, -0.5, 0.8], "angle": 1.1, "via": "rod"}, "t": [1.0, -2.0, 3.0]}
+    m2 = {"angle": 0.7, "t": [1.0, -2.0]}
+    pat = [0.31, -0.72, 0.55, 0.18, -0.93, 0.44, 0.67, -0.25, 0.81, -0.36, 0.59, 0.12, -0.48, 0.77, -0.64, 0.29]
+    for d in ["none", "noise", "reflect", "swap", "scale", "lastrow"]:
+        for mag in (0.0, 3e-6, 1e-4, 0.3):
+            for i in range(4):
+                for src in ("ref", "lib"):
+                    yield {"kind": "pred", "m3": m3, "m2": m2, "mag": mag, "pattern": pat, "defect": d, "i": i, "j": (i + 1) % 4,
+                           "vec": [0.3, -0.2, 0.9, 0.1], "vmag": 1.0 + mag, "src": src}
 
 
 def s_pred():
@@ -473,6 +486,7 @@ def classify(case):
 def subchecks(tier):
     return [
         Sub("cells", gen=gen_cells, shards=(4, 4)),
+        Sub("pred_cells", gen=gen_pred_cells, shards=(2, 2)),
         Sub("ctor", strategy=s_ctor(), n=(600, 15000), shards=(6, 16)),
         Sub("pred", strategy=s_pred(), n=(400, 10000), shards=(5, 16)),
     ]
